@@ -27,6 +27,9 @@ pub struct Var {
     pub kind: Kind,
     pub read: bool,
     pub write: bool,
+    /// packed writes: bit 0 = all fields in one store (else one read-modify-write per field),
+    /// bit 1 = shifts written as multiplications by 2^k (else SHL)
+    pub style: u8,
 }
 
 pub const CFG: &str = "30000000,10,50,250,394,0";
@@ -100,6 +103,19 @@ fn push_key(a: &mut vm::Asm, r: &mut Rng, v: &Var) {
     }
 }
 
+/// `x << sh`, as SHL or as a multiplication by 2^sh (the two forms compilers have used)
+fn shift_left(a: &mut vm::Asm, sh: usize, use_mul: bool) {
+    if use_mul {
+        let mut w = vec![0u8; 32];
+        w[31 - sh / 8] = 1 << (sh % 8);
+        a.push_word(&w);
+        a.op(0x02);
+    } else {
+        a.push_u(sh as u64);
+        a.op(0x1b);
+    }
+}
+
 fn ret_top(a: &mut vm::Asm) {
     a.push_u(0);
     a.op(0x52);
@@ -111,6 +127,8 @@ fn ret_top(a: &mut vm::Asm) {
 /// the branches (bodies) that access `v`
 fn bodies(r: &mut Rng, v: &Var) -> Vec<Vec<u8>> {
     let mut out = vec![];
+    let all_at_once = v.style & 1 != 0;
+    let use_mul = v.style & 2 != 0;
     let mut body = |f: &mut dyn FnMut(&mut vm::Asm, &mut Rng)| {
         let mut a = vm::Asm::new(0);
         f(&mut a, r);
@@ -118,11 +136,34 @@ fn bodies(r: &mut Rng, v: &Var) -> Vec<Vec<u8>> {
     };
     match &v.kind {
         Kind::Packed(widths) => {
+            if v.write && all_at_once {
+                // all fields written at once: f0 | f1 << s1 | f2 << s2 … in stack-machine order
+                // (each OR takes the newest field as its left operand: a right-nested chain)
+                let ws = widths.clone();
+                body(&mut |a, r| {
+                    let mut sh = 0usize;
+                    for (i, w) in ws.iter().enumerate() {
+                        push_value_m(a, r, false);
+                        a.push_word(&mask_bytes(*w));
+                        a.op(0x16);
+                        if sh > 0 {
+                            shift_left(a, sh, use_mul);
+                        }
+                        if i > 0 {
+                            a.op(0x17);
+                        }
+                        sh += w;
+                    }
+                    a.push_word(&v.slot);
+                    a.op(0x55);
+                    a.op(0x00);
+                });
+            }
             let mut shift = 0usize;
             for w in widths {
                 let (sh, w) = (shift, *w);
                 shift += w;
-                if v.write {
+                if v.write && !all_at_once {
                     body(&mut |a, r| {
                         // (sload(slot) & ~(mask << shift)) | ((value & mask) << shift)
                         let mut hole = vec![0xffu8; 32];
@@ -133,8 +174,7 @@ fn bodies(r: &mut Rng, v: &Var) -> Vec<Vec<u8>> {
                         a.push_word(&mask_bytes(w));
                         a.op(0x16);
                         if sh > 0 {
-                            a.push_u(sh as u64);
-                            a.op(0x1b);
+                            shift_left(a, sh, use_mul);
                         }
                         a.push_word(&v.slot);
                         a.op(0x54);
@@ -326,8 +366,9 @@ pub fn self_ref_program(r: &mut Rng) -> Vec<u8> {
             },
             read: true,
             write: true,
+            style: 0,
         };
-        let base = Var { slot, kind: Kind::Word, read: true, write: true };
+        let base = Var { slot, kind: Kind::Word, read: true, write: true, style: 0 };
         let (src, dst) = if r.chance(2, 3) { (&base, &container) } else { (&container, &base) };
         let mut a = vm::Asm::new(0);
         push_key(&mut a, r, src);
@@ -588,7 +629,8 @@ pub fn random_var(r: &mut Rng, used: &mut Vec<Vec<u8>>) -> Var {
         1 => (false, true),
         _ => (true, true),
     };
-    Var { slot, kind, read, write }
+    let style = r.below(4) as u8;
+    Var { slot, kind, read, write, style }
 }
 
 pub fn spec_text(vars: &[Var]) -> String {
@@ -602,7 +644,12 @@ pub fn spec_text(vars: &[Var]) -> String {
                 Kind::Addr => format!("a:{slot}:{rw}"),
                 Kind::Map(keys) => format!("m:{slot}:{rw}:{}", keys.iter().map(|k| if *k { 'a' } else { 'w' }).collect::<String>()),
                 Kind::Dyn => format!("d:{slot}:{rw}"),
-                Kind::Packed(ws) => format!("p:{slot}:{rw}:{}", ws.iter().map(|w| w.to_string()).collect::<Vec<_>>().join(",")),
+                Kind::Packed(ws) => format!(
+                    "p:{slot}:{rw}{}{}:{}",
+                    if v.write && v.style & 1 != 0 { "A" } else { "" },
+                    if v.write && v.style & 2 != 0 { "M" } else { "" },
+                    ws.iter().map(|w| w.to_string()).collect::<Vec<_>>().join(",")
+                ),
             }
         })
         .collect();
